@@ -94,6 +94,26 @@ structure FR (s : Split) (R : Registry) (f' f : Forest) : Prop where
   owner : ∃ t' t, f'.tree? s.m.seq = some t' ∧ f.tree? s.m.seq = some t ∧ SameTop s.σ t' t ∧ (t.dir.map (·.name)).Nodup
   noIO' : ForestAll NoIO f'
   noIO : ForestAll NoIO f
+  /-- the trees of the split forest that are not trees of modules of the unsplit set (the submodules') carry no error -/
+  errs : ∀ p ∈ f'.trees, (∀ x ∈ R.mods, x.seq ≠ p.1) → NoErrors p.2
+
+theorem mem_setTree {f : Forest} {id : Nat} {e : Entry} {p : Nat × Entry} (hp : p ∈ (f.setTree id e).trees) :
+    (p.1 = id ∧ p.2 = e) ∨ (p.1 ≠ id ∧ p ∈ f.trees) := by
+  simp only [Forest.setTree, List.mem_map] at hp
+  obtain ⟨⟨i, t⟩, hq, rfl⟩ := hp
+  by_cases hi : i = id
+  · subst hi; left; simp
+  · right
+    have : (i == id) = false := by simpa using hi
+    simp only [this, Bool.false_eq_true, if_false]
+    exact ⟨hi, hq⟩
+
+theorem errs_setTree {s : Split} {R : Registry} {f' f : Forest} (hF : FR s R f' f) {y : Mod} (hy : y ∈ R.mods) (e : Entry) :
+    ∀ p ∈ (f'.setTree y.seq e).trees, (∀ x ∈ R.mods, x.seq ≠ p.1) → NoErrors p.2 := by
+  intro p hp hne
+  rcases mem_setTree hp with ⟨h1, _⟩ | ⟨_, h2⟩
+  · exact absurd h1.symm (hne y hy)
+  · exact hF.errs p h2 hne
 
 theorem tree?_setTree_same (f : Forest) (id : Nat) (r : Entry) (hr : f.tree? id = some r) (id' : Nat) :
     (f.setTree id r).tree? id' = f.tree? id' := by
@@ -103,23 +123,25 @@ theorem tree?_setTree_same (f : Forest) (id : Nat) (r : Entry) (hr : f.tree? id 
   · rfl
 
 theorem FR.congr {s : Split} {R : Registry} {f' f g' g : Forest} (hF : FR s R f' f) (e' : ∀ id, g'.tree? id = f'.tree? id)
-    (e : ∀ id, g.tree? id = f.tree? id) (n' : ForestAll NoIO g') (n : ForestAll NoIO g) : FR s R g' g :=
+    (e : ∀ id, g.tree? id = f.tree? id) (n' : ForestAll NoIO g') (n : ForestAll NoIO g)
+    (he : ∀ p ∈ g'.trees, (∀ x ∈ R.mods, x.seq ≠ p.1) → NoErrors p.2) : FR s R g' g :=
   ⟨fun x hx hm => by rw [e', e]; exact hF.other x hx hm, by
     obtain ⟨t', t, a, b, c⟩ := hF.owner
-    exact ⟨t', t, by rw [e']; exact a, by rw [e]; exact b, c⟩, n', n⟩
+    exact ⟨t', t, by rw [e']; exact a, by rw [e]; exact b, c⟩, n', n, he⟩
 
 /-- Putting back the trees that are there changes nothing. -/
-theorem FR.setSame {s : Split} {R : Registry} {f' f : Forest} (hF : FR s R f' f) (id : Nat) {r' r : Entry}
-    (hr' : f'.tree? id = some r') (hr : f.tree? id = some r) : FR s R (f'.setTree id r') (f.setTree id r) :=
-  hF.congr (tree?_setTree_same f' id r' hr') (tree?_setTree_same f id r hr)
+theorem FR.setSame {s : Split} {R : Registry} {f' f : Forest} (hF : FR s R f' f) {y : Mod} (hy : y ∈ R.mods) {r' r : Entry}
+    (hr' : f'.tree? y.seq = some r') (hr : f.tree? y.seq = some r) : FR s R (f'.setTree y.seq r') (f.setTree y.seq r) :=
+  hF.congr (tree?_setTree_same f' y.seq r' hr') (tree?_setTree_same f y.seq r hr)
     (forestAll_setTree _ _ _ hF.noIO' (forestAll_tree? _ _ _ hF.noIO' hr'))
-    (forestAll_setTree _ _ _ hF.noIO (forestAll_tree? _ _ _ hF.noIO hr))
+    (forestAll_setTree _ _ _ hF.noIO (forestAll_tree? _ _ _ hF.noIO hr)) (errs_setTree hF hy r')
 
 /-- Replacing the tree of another module by trees equal up to `ren σ`. -/
 theorem FR.setOther {s : Split} {R : Registry} {f' f : Forest} (hF : FR s R f' f) {y : Mod} (hy : y ∈ R.mods)
     (hym : y.seq ≠ s.m.seq) (hnd : (R.mods.map (·.seq)).Nodup) (n' : Entry) (hn : NoIO n') :
     FR s R (f'.setTree y.seq n') (f.setTree y.seq (ren s.σ n')) := by
-  refine ⟨fun x hx hm => ?_, ?_, forestAll_setTree _ _ _ hF.noIO' hn, forestAll_setTree _ _ _ hF.noIO (noIO_ren _ hn)⟩
+  refine ⟨fun x hx hm => ?_, ?_, forestAll_setTree _ _ _ hF.noIO' hn, forestAll_setTree _ _ _ hF.noIO (noIO_ren _ hn),
+    errs_setTree hF hy n'⟩
   · rw [tree?_setTree, tree?_setTree]
     split
     · rw [← hF.other x hx hm]
@@ -131,10 +153,12 @@ theorem FR.setOther {s : Split} {R : Registry} {f' f : Forest} (hF : FR s R f' f
     · rw [tree?_setTree, if_neg (fun e => hym e.symm)]; exact b
 
 /-- Replacing the owner's tree and the unsplit module's tree by trees with `SameTop`. -/
-theorem FR.setOwner {s : Split} {R : Registry} {f' f : Forest} (hF : FR s R f' f) (n' n : Entry) (hst : SameTop s.σ n' n)
+theorem FR.setOwner {s : Split} {R : Registry} {f' f : Forest} (hF : FR s R f' f) (hmm : s.m ∈ R.mods) (n' n : Entry)
+    (hst : SameTop s.σ n' n)
     (hnd : (n.dir.map (·.name)).Nodup) (h' : NoIO n') (h0 : NoIO n) :
     FR s R (f'.setTree s.m.seq n') (f.setTree s.m.seq n) := by
-  refine ⟨fun x hx hm => ?_, ?_, forestAll_setTree _ _ _ hF.noIO' h', forestAll_setTree _ _ _ hF.noIO h0⟩
+  refine ⟨fun x hx hm => ?_, ?_, forestAll_setTree _ _ _ hF.noIO' h', forestAll_setTree _ _ _ hF.noIO h0,
+    errs_setTree hF hmm n'⟩
   · rw [tree?_setTree, tree?_setTree, if_neg hm, if_neg hm]
     exact hF.other x hx hm
   · obtain ⟨t', t, a, b, _⟩ := hF.owner
@@ -178,7 +202,7 @@ theorem FR.addErrAt {f' f : Forest} (hF : FR s R f' f) {x : Mod} (hx : x ∈ R.m
   by_cases hxm : x.seq = s.m.seq
   · obtain ⟨t', t, a, b, c, d⟩ := hF.owner
     rw [hxm, a, b]
-    refine hF.setOwner _ _ (sameTop_addErr s.σ c er) ?_ (noIO_addErr _ _ (forestAll_tree? _ _ _ hF.noIO' a))
+    refine hF.setOwner h.regs.m_mem _ _ (sameTop_addErr s.σ c er) ?_ (noIO_addErr _ _ (forestAll_tree? _ _ _ hF.noIO' a))
       (noIO_addErr _ _ (forestAll_tree? _ _ _ hF.noIO b))
     cases t; exact d
   · have ho := hF.other x hx hxm
@@ -218,7 +242,7 @@ theorem find_rel {f' f : Forest} (hF : FR s R f' f) {x : Mod} (hx : x ∈ R.mods
         · rw [a, b]
           dsimp only
           rw [c, d, e]
-          refine ⟨rfl, hF.setSame _ a b, fun t path e => ?_⟩
+          refine ⟨rfl, hF.setSame hy a b, fun t path e => ?_⟩
           cases hw : (walkParts parts r (some [])).1 with
           | none => rw [hw] at e; cases e
           | some q => rw [hw] at e; simp only [Option.map_some, Option.some.injEq, Prod.mk.injEq] at e; exact ⟨y, hy, e.1⟩
@@ -230,7 +254,7 @@ theorem find_rel {f' f : Forest} (hF : FR s R f' f) {x : Mod} (hx : x ∈ R.mods
       · rw [a, b]
         dsimp only
         rw [c, d, e]
-        refine ⟨rfl, hF.setSame _ a b, fun t path e => ?_⟩
+        refine ⟨rfl, hF.setSame hx a b, fun t path e => ?_⟩
         cases hw : (walkParts (name.splitOn "/") r (some [])).1 with
         | none => rw [hw] at e; cases e
         | some q => rw [hw] at e; simp only [Option.map_some, Option.some.injEq, Prod.mk.injEq] at e; exact ⟨x, hx, e.1⟩
@@ -393,7 +417,7 @@ theorem augStep_rel {x : Mod} (hx : x ∈ R.mods) (ns : String) {acc' acc : PSta
           rw [hym] at a b ⊢
           rw [oa] at a; rw [ob] at b
           cases a; cases b
-          refine e2.setOwner _ _ (sameTop_mergeAt s.σ oc (some ns) a' path) (names_mergeAt _ _ _ path od) nu' ?_
+          refine e2.setOwner h.regs.m_mem _ _ (sameTop_mergeAt s.σ oc (some ns) a' path) (names_mergeAt _ _ _ path od) nu' ?_
           exact noIO_updateAt _ (fun z hz => noIO_merge z (some ns) _ hz (by
             intro c hc
             rw [ren_dir] at hc
@@ -416,6 +440,8 @@ structure SR (s : Split) (R : Registry) (s' s₁ : PState) : Prop where
   pend : ∀ x ∈ R.mods, s₁.pendingOf x.seq = (s'.pendingOf x.seq).map (ren s.σ)
   has : ∀ x ∈ R.mods, s'.pending.any (·.1 == x.seq) = s₁.pending.any (·.1 == x.seq)
   pmod : ∀ x ∈ R.mods, ∀ a' ∈ s'.pendingOf x.seq, a'.d.nodeMod = x.seq ∧ ∀ c ∈ a'.dir, NoIO c
+  /-- nothing is pending for a tree of the split set that is not the tree of a module of the unsplit set -/
+  subsP : ∀ id, (∀ x ∈ R.mods, x.seq ≠ id) → s'.pendingOf id = []
 
 section
 variable {s : Split} {R R' : Registry} {plug plug' : Plug} (h : IsSplitOf s R R' plug plug')
@@ -505,7 +531,7 @@ theorem augmentTree_rel {s' s₁ : PState} (hS : SR s R s' s₁) {x : Mod} (hx :
   obtain ⟨j1, j2, j3⟩ := i1
   simp only at j1 j2 j3 i2 i3 i4
   subst j2
-  refine ⟨⟨j1, fun y hy => ?_, fun y hy => ?_, fun y hy a' ha' => ?_⟩, j3.symm⟩
+  refine ⟨⟨j1, fun y hy => ?_, fun y hy => ?_, fun y hy a' ha' => ?_, fun id hid => ?_⟩, j3.symm⟩
   · simp only
     rw [LoadOrder.pendingOf_setPending, LoadOrder.pendingOf_setPending, i2, i3, hS.has x hx]
     have hq : q.pendingOf y.seq = s₁.pendingOf y.seq := by unfold PState.pendingOf; rw [i3]
@@ -531,6 +557,183 @@ theorem augmentTree_rel {s' s₁ : PState} (hS : SR s R s' s₁) {x : Mod} (hx :
       · cases ha'
     · rw [hq'] at ha'
       exact hS.pmod y hy a' ha'
+  · simp only
+    rw [LoadOrder.pendingOf_setPending, if_neg (fun e => hid x hx e.symm)]
+    have hq' : q'.pendingOf id = s'.pendingOf id := by unfold PState.pendingOf; rw [i2]
+    rw [hq']
+    exact hS.subsP id hid
+
+end
+
+theorem mem_swapRemove_sub (mods : Array Nat) (i : Nat) (h : i < mods.size) :
+    ∀ id ∈ ((mods.set i (mods.back?.getD 0) h).pop).toList, id ∈ mods.toList := by
+  intro id hid
+  rw [Array.toList_pop, Array.toList_set] at hid
+  have h1 : id ∈ mods.toList.set i (mods.back?.getD 0) := List.dropLast_subset _ hid
+  rcases List.mem_or_eq_of_mem_set h1 with h2 | h2
+  · exact h2
+  · subst h2
+    have hb : mods.back? = some mods[mods.size - 1] := by
+      rw [Array.back?]; simp
+    rw [hb]
+    simp
+
+section
+variable {s : Split} {R R' : Registry} {plug plug' : Plug} (h : IsSplitOf s R R' plug plug')
+include h
+
+/-- **One pass of the augment loop, in the two runs**, over the same module array (numbers of modules of the
+unsplit set): the same array left, the same count, related states. -/
+theorem augmentPass_rel : ∀ (fuel : Nat) (mods : Array Nat) (i processed : Nat) (s' s₁ : PState), SR s R s' s₁ →
+    (∀ id ∈ mods.toList, ∃ x ∈ R.mods, x.seq = id) →
+    (augmentPass R' fuel mods i processed s').1 = (augmentPass R fuel mods i processed s₁).1 ∧
+    (augmentPass R' fuel mods i processed s').2.1 = (augmentPass R fuel mods i processed s₁).2.1 ∧
+    SR s R (augmentPass R' fuel mods i processed s').2.2 (augmentPass R fuel mods i processed s₁).2.2 ∧
+    (∀ id ∈ (augmentPass R fuel mods i processed s₁).1.toList, ∃ x ∈ R.mods, x.seq = id)
+  | 0, mods, i, processed, s', s₁, hS, hM => ⟨rfl, rfl, hS, hM⟩
+  | fuel + 1, mods, i, processed, s', s₁, hS, hM => by
+    unfold augmentPass
+    by_cases hi : i < mods.size
+    · rw [dif_pos hi, dif_pos hi]
+      obtain ⟨x, hx, hxs⟩ := hM mods[i] (Array.getElem_mem_toList hi)
+      obtain ⟨hrel, heq⟩ := augmentTree_rel h hS hx
+      rw [hxs] at hrel heq
+      rw [show augmentTree R' mods[i] false s' = ((augmentTree R' mods[i] false s').1, (augmentTree R mods[i] false s₁).2) from by
+        rw [← heq]]
+      generalize (augmentTree R' mods[i] false s').1 = q' at hrel ⊢
+      generalize augmentTree R mods[i] false s₁ = o₁ at hrel ⊢
+      obtain ⟨q, p, k⟩ := o₁
+      simp only at hrel ⊢
+      by_cases hk : (k == 0) = true
+      · simp only [hk, if_true]
+        exact augmentPass_rel fuel _ i (processed + p) q' q hrel (fun id hid => hM id (mem_swapRemove_sub mods i hi id hid))
+      · simp only [hk, Bool.false_eq_true, if_false]
+        exact augmentPass_rel fuel mods (i + 1) (processed + p) q' q hrel hM
+    · rw [dif_neg hi, dif_neg hi]
+      exact ⟨rfl, rfl, hS, hM⟩
+
+/-- **The augment loop, in the two runs** (the same fuel, the same module array). -/
+theorem augmentLoop_rel : ∀ (fuel : Nat) (mods : Array Nat) (s' s₁ : PState), SR s R s' s₁ →
+    (∀ id ∈ mods.toList, ∃ x ∈ R.mods, x.seq = id) →
+    SR s R (augmentLoop R' fuel mods s').2 (augmentLoop R fuel mods s₁).2
+  | 0, mods, s', s₁, hS, _ => hS
+  | fuel + 1, mods, s', s₁, hS, hM => by
+    unfold augmentLoop
+    by_cases hm : mods.isEmpty = true
+    · rw [if_pos hm, if_pos hm]; exact hS
+    · rw [if_neg hm, if_neg hm]
+      obtain ⟨h1, h2, h3, h4⟩ := augmentPass_rel h (mods.size + 1) mods 0 0 s' s₁ hS hM
+      generalize augmentPass R' (mods.size + 1) mods 0 0 s' = r' at h1 h2 h3
+      generalize augmentPass R (mods.size + 1) mods 0 0 s₁ = r at h1 h2 h3 h4
+      obtain ⟨m', p', q'⟩ := r'
+      obtain ⟨m1, p1, q1⟩ := r
+      simp only at h1 h2 h3 h4 ⊢
+      subst h1 h2
+      split
+      · exact h3
+      · exact augmentLoop_rel fuel m' q' q1 h3 h4
+
+end
+
+/-! ### the result: `LoopsRelatedCore` from the relation of the two starting states -/
+
+theorem noErrors_ren (σ : Nat → Nat) {e : Entry} (h : NoErrors (ren σ e)) : NoErrors e :=
+  (IncludeAugCompose.everyNode_ren σ noErrorsHere (fun d c i o => by simp [noErrorsHere, Entry.d, renD]) e).1 h
+
+theorem noErrors_sameTop (σ : Nat → Nat) {t' t : Entry} (h : SameTop σ t' t) (ht : NoErrors t) : NoErrors t' := by
+  cases t' with | mk d' c' i' o' =>
+  cases t with | mk d c i o =>
+  obtain ⟨h1, h2, ⟨h3, h3'⟩, ⟨h4, h4'⟩⟩ := h
+  simp only [Entry.d, Entry.dir, Entry.inp, Entry.out] at h1 h2 h3 h3' h4 h4'
+  subst h3 h3' h4 h4'
+  rw [noErrors_mk] at ht ⊢
+  refine ⟨?_, ?_, by simp, by simp⟩
+  · unfold SameData at h1; rw [h1]; exact ht.1
+  · intro x hx
+    apply noErrors_ren σ
+    apply ht.2.1
+    apply h2.mem_iff.1
+    rw [renL_eq_map]
+    exact List.mem_map_of_mem hx
+
+theorem tree?_of_mem_nodup {f : Forest} (hk : (fkeys f).Nodup) {p : Nat × Entry} (hp : p ∈ f.trees) : f.tree? p.1 = some p.2 := by
+  unfold Forest.tree?
+  have : f.trees.find? (·.1 == p.1) = some p := by
+    unfold fkeys at hk
+    generalize f.trees = l at hk hp
+    induction l with
+    | nil => cases hp
+    | cons q qs ih =>
+      rw [List.map_cons, List.nodup_cons] at hk
+      rcases List.mem_cons.1 hp with rfl | hq
+      · simp
+      · have hne : (q.1 == p.1) = false := by
+          rw [beq_eq_false_iff_ne]
+          intro e
+          exact hk.1 (e ▸ List.mem_map_of_mem (f := fun x : Nat × Entry => x.1) hq)
+        rw [List.find?_cons, hne]
+        exact ih hk.2 hq
+  rw [this]; rfl
+
+section
+variable {s : Split} {R R' : Registry} {plug plug' : Plug} (h : IsSplitOf s R R' plug plug')
+include h
+
+open Goyang.Lemmas.IncludeAugCompose Goyang.Lemmas.IncludeAugOrder in
+/-- **(S) for sets without rpc / action nodes**: when the two starting states are related (`SR`: the converted
+forests as `include_conversion` relates them, free of rpc / action nodes; the pending augment entries of every
+module equal up to `ren σ` — piece (A)), the two loops have the same fuel, and the loop over the unsplit set ends
+without recorded error and leaves nothing pending, then the loop over the split set run in the same module order
+records no error, leaves nothing pending, and leaves the owner's tree `SameTop σ` the unsplit module's. -/
+theorem loopsRelatedCore_of_start (opts : Opts) (hL : Fuel.LoadedShape R')
+    (hstart : SR s R (pstate0 R' opts plug') (pstate0 R opts plug))
+    (hfuel : loopFuel R' opts plug' = loopFuel R opts plug)
+    (hcl : AugmentReport.allErrs (afterLoop R opts plug).2.forest = []) (hn : NoLeftover R opts plug) :
+    LoopsRelatedCore s R R' opts plug plug' := by
+  have hM : ∀ id ∈ (((augOrder R).map (·.seq)).toArray).toList, ∃ x ∈ R.mods, x.seq = id := by
+    intro id hid
+    simp only [List.mem_map] at hid
+    obtain ⟨x, hx, rfl⟩ := hid
+    unfold augOrder at hx
+    rw [AugmentReport.mem_sortBy] at hx
+    obtain ⟨kv, _, hby⟩ := List.mem_filterMap.1 hx
+    exact ⟨x, IncludeLink.byId_mem hby, rfl⟩
+  have key := augmentLoop_rel h (loopFuel R opts plug) ((augOrder R).map (·.seq)).toArray _ _ hstart hM
+  have eU : loopU R R' opts plug' =
+      (augmentLoop R' (loopFuel R opts plug) ((augOrder R).map (·.seq)).toArray (pstate0 R' opts plug')).2 := by
+    unfold loopU; rw [hfuel]
+  have eA : (afterLoop R opts plug).2 =
+      (augmentLoop R (loopFuel R opts plug) ((augOrder R).map (·.seq)).toArray (pstate0 R opts plug)).2 := rfl
+  rw [← eU, ← eA] at key
+  have hNe : ForestAll NoErrors (afterLoop R opts plug).2.forest := (forestErrs_eq_nil _).1 hcl
+  refine ⟨?_, fun id => ?_, ?_⟩
+  · apply (forestErrs_eq_nil _).2
+    intro p hp
+    have hkeys : (fkeys (loopU R R' opts plug').forest).Nodup := by
+      have e2 : fkeys (loopU R R' opts plug').forest = fkeys (pstate0 R' opts plug').forest :=
+        Bridge.fkeys_augmentLoop R' _ _ _
+      rw [e2]
+      exact Bridge.tstate_ckeys_nodup R' opts plug' hL
+    have hp1 := tree?_of_mem_nodup hkeys hp
+    by_cases hex : ∃ x ∈ R.mods, x.seq = p.1
+    · obtain ⟨x, hx, hxs⟩ := hex
+      by_cases hxm : x.seq = s.m.seq
+      · obtain ⟨t', t, a, b, c, _⟩ := key.fr.owner
+        rw [← hxs, hxm, a] at hp1
+        cases hp1
+        exact noErrors_sameTop s.σ c (hNe _ (mem_of_tree? b))
+      · have ho := key.fr.other x hx hxm
+        rw [hxs, hp1] at ho
+        exact noErrors_ren s.σ (hNe _ (mem_of_tree? ho.symm))
+    · exact key.fr.errs p hp (fun x hx e => hex ⟨x, hx, e⟩)
+  · by_cases hex : ∃ x ∈ R.mods, x.seq = id
+    · obtain ⟨x, hx, rfl⟩ := hex
+      have := key.pend x hx
+      rw [IncludeNoAug.pendingOf_nil _ hn x.seq] at this
+      exact List.map_eq_nil_iff.1 this.symm
+    · exact key.subsP id (fun x hx e => hex ⟨x, hx, e⟩)
+  · obtain ⟨t', t, a, b, c, _⟩ := key.fr.owner
+    exact ⟨t, t', b, a, c⟩
 
 end
 end Goyang.Lemmas.IncludeAugSim
